@@ -30,6 +30,10 @@ Clauses == <<
   <<"RequestPosted", End.unposted = 0>>,
   <<"OneTerminal", /\ Cardinality(OwnIdx) <= 1
                    /\ (End.expReq = "done" => Cardinality(OwnIdx) = 1)>>,
+  \* when the model's schedule ends with the server's answer as the terminal message (answer in
+  \* the POST reply, or on the event stream in time), the observed terminal is an answer too and
+  \* not a synthesised error
+  <<"AnswerIsTerminal", End.expSrc \in {"post", "event"} => \A i \in OwnIdx : Read[i][2] \in {"post", "event"}>>,
   <<"IdPreserved", \A i \in OwnIdx : Read[i][1] = "own">>,
   <<"NoForeignIds", \A i \in DOMAIN Read : Read[i][1] # "other">>,
   <<"EventsOnceInOrder", /\ Len(SrvSeq) = End.expSrv
